@@ -15,8 +15,8 @@ META = dict(
     technique='TLA+ critical-section model checked exhaustively by TLC; TLC trace validation (linearizability against abstract counting semaphore) of executions recorded from the real semaphore',
     design='3/C02')
 
-MODES_Q = [('sem', 150), ('semooo', 100), ('semdestroy', 20)]
-MODES_T = [('sem', 2000), ('semooo', 1500), ('semdestroy', 300)]
+MODES_Q = [('sem', 150), ('semooo', 100), ('semdestroy', 20), ('csem', 1200)]
+MODES_T = [('sem', 2000), ('semooo', 1500), ('semdestroy', 300), ('csem', 30000)]
 MC = [('MC_Semaphore', 'MC_Semaphore_inorder.cfg', 900), ('MC_Semaphore', 'MC_Semaphore_inorder1.cfg', 900),
       ('MC_Semaphore', 'MC_Semaphore_ooo.cfg', 900), ('MC_Semaphore', 'MC_Semaphore_destroy.cfg', 300)]
 
